@@ -29,12 +29,26 @@ LEAF_PARAMS = {
 }
 
 
+def odd_names(cfg: Dict[str, Any]) -> Dict[str, Any]:
+    """The same network with component names that are valid but unusual: a host called "101" (digits only), one with
+    a dot and a dash, a switch whose name is a keyword of the request tree."""
+    ren = {"a": "101", "b": "srv-1.lan", "sw": "node"}
+    cfg = copy.deepcopy(cfg)
+    for n in cfg["simulation"]["network"]["nodes"]:
+        n["hostname"] = ren.get(n["hostname"], n["hostname"])
+    for l in cfg["simulation"]["network"]["links"]:
+        for k in ("endpoint_a_hostname", "endpoint_b_hostname"):
+            l[k] = ren.get(l[k], l[k])
+    return cfg
+
+
 def scenario_list(tier: str):
     out = [
         ("data_manipulation", scenarios.shipped("data_manipulation.yaml")),
         ("firewalled_dmz", scenarios.firewalled(dmz=True)),
         ("wireless_wan", scenarios.test_asset("wireless_wan_network_config.yaml")),
         ("switched", scenarios.switched(3)),
+        ("switched_odd_names", odd_names(scenarios.switched(3))),
     ]
     if tier == "thorough":
         out.append(("uc7", scenarios.shipped("uc7_config.yaml")))
@@ -78,7 +92,10 @@ def explore(label: str, cfg: Dict[str, Any], budget: int, rng: random.Random, ch
             for mname, m in rng.sample(muts, min(3, len(muts))):
                 batch.append((m, False, False, aname, mname))
         rng.shuffle(batch)
+        removed_on = set()  # nodes on which a component was removed since the instances were drawn: no existence claim
         for (req, isact, exist, aname, mut) in batch[: max(40, budget // 6)]:
+            if len(req) > 2 and str(req[2]) in removed_on:
+                exist = False
             obs, leaf = rq.dry_run(sim, req)
             status, reason, raised = "", False, None
             try:
@@ -92,6 +109,8 @@ def explore(label: str, cfg: Dict[str, Any], budget: int, rng: random.Random, ch
             post = numbering.num(rq.state_digest(sim))
             events.append(rq.req_event(obs, leaf, True, status, reason, cur, post, "na", isact, exist))
             meta.append({"request": [str(x)[:60] for x in req], "kind": aname, "mutation": mut, "raised": raised})
+            if len(req) > 2 and (any(str(x) in ("uninstall", "delete") for x in req[3:]) or aname in ("node-application-remove", "node-file-delete")):
+                removed_on.add(str(req[2]))
             kinds_seen.add((aname, mut.split("@")[0]))
             chk.add_case({"s": label, "k": aname, "m": mut.split("@")[0], "o": [tuple(sorted(o.items())) for o in obs], "st": status},
                          nontrivial=True)
